@@ -116,7 +116,7 @@ var vfBundledAssets = []vfAssetRef{
 
 var vfGenAssets = []vfAssetRef{
 	{"gen/irr1001", "gen.mpd", true}, {"gen/one", "gen.mpd", true}, {"gen/sub", "gen.mpd", true},
-	{"gen/alt12", "gen.mpd", true}, {"gen/numvar", "gen.mpd", true}, {"gen/s32", "gen.mpd", true},
+	{"gen/alt12", "gen.mpd", true}, {"gen/numvar", "gen.mpd", true}, {"gen/s32", "gen.mpd", true}, {"gen/ttml", "gen.mpd", true},
 }
 
 // vfGenServer writes the generated layouts into a fresh temp vod root and starts a server on it.
